@@ -251,7 +251,8 @@ def d3(ctx, rep):
                 for s in walk_no_nested(g.node):
                     if isinstance(s, ast.Assign) and isinstance(s.targets[0], ast.Name) and s.targets[0].id == var and s is not loc:
                         gs = guard_chain(s, g.node)
-                        guarded = any(is_none_test(t) is not None and isinstance(is_none_test(t)[0], ast.Name) and is_none_test(t)[0].id == var
+                        guarded = any(is_none_test(t) is not None and ((isinstance(is_none_test(t)[0], ast.Name) and is_none_test(t)[0].id == var)
+                                                                       or is_self_attr(is_none_test(t)[0], g.self_name, attr))
                                       and is_none_test(t)[1] == pol for t, pol in gs)
                         if not guarded:
                             ok = False
